@@ -142,18 +142,40 @@ class Env:
             elif k == "CompProbe":
                 rec = {}
 
+                env.nprobe = getattr(env, "nprobe", 0) + 1
+                tag = f"probe{env.nprobe}"
+
+                class ProbeRes:
+                    pass
+
+                def sees(child, m, name):
+                    # the new context is a snapshot of its parent as it is NOW: what the component itself has
+                    # just published must be in it
+                    return child.get_resource_nowait(ProbeRes, name, optional=True) is m
+
                 class Probe(Component):
                     async def start(self):
                         c = current_context()
                         rec["comp"] = type(c).__name__
-                        rec["parent"] = Context().parent
+                        m = ProbeRes()
+                        c.add_resource(m, tag + "s")
+                        child = Context()
+                        rec["parent"] = child.parent
+                        async with child:
+                            rec["start_sees"] = sees(child, m, tag + "s") and sees(child, rec["pm"], tag + "p")
                         rec["prepare_seen"] = rec.get("prep")
 
                     async def prepare(self):
-                        rec["prep"] = Context().parent
+                        m = rec["pm"] = ProbeRes()
+                        current_context().add_resource(m, tag + "p")
+                        child = Context()
+                        rec["prep"] = child.parent
+                        async with child:
+                            rec["prep_sees"] = sees(child, m, tag + "p")
                 await start_component(Probe)
                 ok = rec.get("comp") == "ComponentContext" and rec.get("prep") is rec.get("parent")
-                env.reports.append({"k": "Parent", "p": env.name(rec.get("parent")), "comp_ok": ok})
+                view = bool(rec.get("prep_sees")) and bool(rec.get("start_sees"))
+                env.reports.append({"k": "Parent", "p": env.name(rec.get("parent")), "comp_ok": ok, "view_ok": view})
             elif k == "Spawn":
                 nt = T(len(env.tasks))
                 env.tasks.append(nt)
